@@ -66,6 +66,7 @@ def worker(a):
     digests = set()
     n_dumped = 0
     dumped_sigs = set()
+    dumped_known = set()
     known_list, _ = load_known()
     rdir = VERIF / 'replays'
     for i in range(a.start, a.start + a.count):
@@ -108,14 +109,22 @@ def worker(a):
                     continue
                 seen_sigs.add(v['sig'])
                 entry = {'index': i, 'run_seed': rs, 'violation': v, 'all': r['violations'][:5]}
-                if v['sig'] not in dumped_sigs and n_dumped < 16:
+                kf = match_known(known_list, a.prop, v['sig'])
+                if kf is not None:
+                    # one raw trace per listed finding and block is enough; they do not use up the budget
+                    # that guarantees a replay for every unlisted signature
+                    dump = id(kf) not in dumped_known
+                    dumped_known.add(id(kf))
+                else:
+                    dump = v['sig'] not in dumped_sigs and n_dumped < 16
+                if dump:
                     dumped_sigs.add(v['sig'])
                     rdir.mkdir(exist_ok=True)
                     path = rdir / f'raw-{a.prop}-{rs:016x}-{len(seen_sigs)}.json'
                     with open(path, 'w') as f:
                         json.dump(core.make_replay(a.prop, run, a.tier, v), f)
                     entry['raw'] = str(path)
-                    n_dumped += 1
+                    n_dumped += 0 if kf is not None else 1
                 res['violations'].append(entry)
             unknown = sum(1 for e in res['violations']
                           if match_known(known_list, a.prop, e['violation']['sig']) is None)
